@@ -237,6 +237,8 @@ def run_cluster_impl(inp):
             kw["t_column"] = tcol
         before = f.copy()
         out = static.cluster(f, sep_arg, **kw)
+    except Exception as e:  # noqa - judged by the caller
+        return ("raises", repr(e))
     finally:
         static.Clusters.from_pairs = classmethod(orig)
     if not before.equals(f):
